@@ -109,15 +109,26 @@ class Program(object):
         while not self.all_sizes_fixed():
             for index, statement in enumerate(self.statements):
                 if not statement.fixed_size:
-                    statement.determine_pcr_relative_sizes(self.statements, index)
+                    try:
+                        statement.determine_pcr_relative_sizes(self.statements, index)
+                    except Exception as error:
+                        raise TranslationError(str(error), statement)
 
         address = 0
         for index, statement in enumerate(self.statements):
-            address = statement.set_address(address)
+            try:
+                address = statement.set_address(address)
+            except Exception as error:
+                raise TranslationError(str(error), statement)
             address += statement.code_pkg.size
 
         for index, statement in enumerate(self.statements):
-            statement.fix_addresses(self.statements, index)
+            try:
+                statement.fix_addresses(self.statements, index)
+            except TranslationError:
+                raise
+            except Exception as error:
+                raise TranslationError(str(error), statement)
 
         # Update the symbol table with the proper addresses
         for symbol, value in self.symbol_table.items():
